@@ -99,7 +99,7 @@ pub fn run_range(scratch: &Path, out: &mut Out, tier: &str, seed: u64) {
     let _ = std::fs::remove_dir_all(&root);
     let cas: Cas<u32> = Cas::open(&root, Config::default()).unwrap();
     let mut lens: Vec<usize> = (0..=6).collect();
-    lens.extend([8191, 8192, 8193, 70000]);
+    lens.extend([8191, 8192, 8193, 70000, 262_144, 262_145, 300_000, 1_048_577]);
     let mut s = seed;
     for (ki, &l) in lens.iter().enumerate() {
         // distinct bytes for the short contents (a slice identifies its offset), pseudo-random for the long ones
